@@ -90,13 +90,14 @@ type G struct {
 	Chk    *monitor.Checker
 	Stats  *Stats
 
-	now      time.Time // time of the current (or last) block
-	uniq     int
-	ops      []string // compact op log
-	hash     []string // canonical op sequence (for the history hash)
-	okWrites int      // successful state-changing messages
-	rejects  int      // rejected messages
-	steps    int      // delivered messages + begin blocks
+	now       time.Time // time of the current (or last) block
+	uniq      int
+	originIDs []string // origin tx ids used so far in this history (for replays)
+	ops       []string // compact op log
+	hash      []string // canonical op sequence (for the history hash)
+	okWrites  int      // successful state-changing messages
+	rejects   int      // rejected messages
+	steps     int      // delivered messages + begin blocks
 
 	viewState *chain.State
 	view      *monitor.View
